@@ -346,6 +346,21 @@ def npz_files(ctx):
         pairs = [(K, (npz_keys(V) or [None])[0]) for K, V in ents.items() if npz_keys(V)]
         rk = {k_ for _, k_ in pairs}
         if not pairs:
+            # wave_data handed to a callee that is chosen at run time (a table of builder functions, a strategy object):
+            # what that callee stores is not followed -- not judged
+            dyn = None
+            for sc_ in with_private_helpers(p, rd):
+                local_ = {n_.id for n_ in ast.walk(sc_) if isinstance(n_, ast.Name) and isinstance(n_.ctx, ast.Store)}
+                for c_ in ast.walk(sc_):
+                    if isinstance(c_, ast.Call) and any(isinstance(a_, ast.Name) and a_.id == "wave_data" for a_ in
+                                                        list(c_.args) + [k_.value for k_ in c_.keywords]):
+                        f_ = c_.func
+                        if (isinstance(f_, ast.Name) and f_.id in local_) or isinstance(f_, (ast.Subscript, ast.Call)):
+                            dyn = ast.unparse(c_)[:60]
+            if dyn is not None:
+                ctx.rep.note(f"_prep_afqmc: wave_data is filled by a callee selected at run time (`{dyn}`); the amplitude key "
+                             f"rules for trial '{kind}' are not applied")
+                continue
             ctx.ob("KEYS-2", f"amplitudes.npz: branch for trial '{kind}' exists on both sides", False,
                    "no array loaded from amplitudes.npz reaches wave_data for this kind", rd)
             continue
@@ -488,7 +503,7 @@ def trial_dispatch(ctx):
     """Decided on the value graph of _prep_afqmc specialised to each documented value of options['trial'] (the dispatch
     may be an if-chain in any order, a table, guard clauses ...): which class is constructed and which wave_data keys
     are provided."""
-    from ..symex import specialise, subterms as _sub, const as _const, getitem as _gi
+    from ..symex import specialise, subterms as _sub, const as _const, getitem as _gi, strip_wrappers, show
     p = ctx.p
     rd = p.func("mpi_jax._prep_afqmc")
     ka = keys.key_analysis(p)
@@ -506,6 +521,14 @@ def trial_dispatch(ctx):
         made = sorted({x.args[0].args[0] for x in _sub(sp_trial) if x.op == "call" and x.args[0].op == "cls"
                        and x.args[0].args[0].startswith("wavefunctions.")})
         if not made:
+            st_ = strip_wrappers(sp_trial)
+            dyn_call = [x for x in _sub(st_) if x.op == "call" and x.args[0].op in ("call", "getitem", "phi", "ifexp", "sym", "attr")
+                        and not (x.args[0].op == "attr" and x.args[0].args[0].op in ("name", "global"))]
+            if dyn_call:
+                # the trial is produced by a callee picked from a table / returned by a selector: not followed, not judged
+                ctx.rep.note(f"_prep_afqmc: for trial '{kind}' the trial object comes out of a callee selected at run time "
+                             f"({show(dyn_call[0].args[0], maxdepth=2)[:50]}); the trial dispatch rules are not applied to it")
+                continue
             ctx.ob("KEYS-1", f"_prep_afqmc: documented trial '{kind}' has a branch", False,
                    "no trial class is constructed for this value", rd)
             continue
